@@ -128,6 +128,10 @@ func checkElection(prev, cur *stk.View, opts stk.StakingOpts, h int64, updates [
 			class := "not-eligible"
 			if strings.Contains(why, "frozen") {
 				class = "frozen-elected"
+				if h <= prev.Evidence.BlockVotesDiff {
+					// the application only consults the frozen records once the missed-votes window has passed
+					class = "frozen-elected-before-window"
+				}
 			} else if strings.Contains(why, "carries power") {
 				class = "wrong-power"
 			}
@@ -400,12 +404,6 @@ func TestC10(t *testing.T) {
 		nt, classes := classesOf(o, d)
 		classes = append(classes, "mode-"+mode)
 		h.Eval(nt, classes, tr.Summary())
-		if os.Getenv("C10_FDDEBUG") != "" {
-			es, _ := os.ReadDir("/proc/self/fd")
-			f, _ := os.OpenFile("/dev/shm/c10fd.log", os.O_APPEND|os.O_CREATE|os.O_WRONLY, 0o644)
-			fmt.Fprintf(f, "%s blocks=%d fds=%d viol=%v\n", mode, len(tr.Steps), len(es), viol != nil)
-			f.Close()
-		}
 		if viol != nil {
 			h.Fail(rt, viol.Oracle, viol.Sig("C10"), tr, "%s", viol.Msg)
 		}
